@@ -15,6 +15,44 @@ fn echo() -> tower::util::BoxCloneService<Request<Bytes>, Response<Bytes>, Infal
     }))
 }
 
+/// A service whose live clones are counted and whose handler has a blocking section (a poll that does not
+/// return for `busy_ms`: an abort takes effect only when it does).
+struct Busy(std::sync::Arc<std::sync::atomic::AtomicI64>, u64);
+impl Busy {
+    fn new(c: std::sync::Arc<std::sync::atomic::AtomicI64>, busy_ms: u64) -> Busy {
+        c.fetch_add(1, Ordering::SeqCst);
+        Busy(c, busy_ms)
+    }
+}
+impl Clone for Busy {
+    fn clone(&self) -> Busy {
+        Busy::new(self.0.clone(), self.1)
+    }
+}
+impl Drop for Busy {
+    fn drop(&mut self) {
+        self.0.fetch_sub(1, Ordering::SeqCst);
+    }
+}
+impl tower::Service<Request<Bytes>> for Busy {
+    type Response = Response<Bytes>;
+    type Error = Infallible;
+    type Future = futures::future::BoxFuture<'static, Result<Response<Bytes>, Infallible>>;
+    fn poll_ready(&mut self, _: &mut std::task::Context<'_>) -> std::task::Poll<Result<(), Infallible>> {
+        std::task::Poll::Ready(Ok(()))
+    }
+    fn call(&mut self, req: Request<Bytes>) -> Self::Future {
+        let ms = self.1;
+        // like generated servers, which move a clone of their inner service into every request's future
+        let me = self.clone();
+        Box::pin(async move {
+            let _me = me;
+            std::thread::sleep(Duration::from_millis(ms));
+            Ok(Response::new(req.into_body()))
+        })
+    }
+}
+
 fn net(seed: u64, idle_wait_ms: u64) -> Network {
     let mut cfg = anemo::Config::default();
     cfg.shutdown_idle_timeout_ms = Some(idle_wait_ms);
@@ -32,6 +70,7 @@ pub fn run() {
         let runs: usize = t[2].parse().unwrap();
         let mut seed: u64 = t[3].parse().unwrap();
         let (mut panics, mut hangs, mut rebind_failures, mut rebind_transient) = (0u64, 0u64, 0u64, 0u64);
+        let (mut clones_left, mut busy_runs) = (0u64, 0u64);
         let mut where_ = String::new();
         LAST_PANIC.lock().unwrap().clear();
         for i in 0..runs {
@@ -40,11 +79,23 @@ pub fn run() {
             let rt = tokio::runtime::Builder::new_multi_thread().worker_threads(4).enable_all().build().unwrap();
             let variant2 = variant.clone();
             let spin = (seed >> 33) % 2000;
-            let (a, b, addr) = rt.block_on(async move {
+            let (a, b, addr, busy) = rt.block_on(async move {
                 // the idle wait of shutdown() is bounded: with a short bound it ends while connections are still
                 // draining, with a long one the endpoint goes idle first; the address must be free either way
                 let idle_wait = if variant2 == "rebind" { [0u64, 1, 5, 20, 200][(seed >> 20) as usize % 5] } else { 200 };
-                let a = net(2 * i as u64 + 1, idle_wait);
+                let clones = std::sync::Arc::new(std::sync::atomic::AtomicI64::new(0));
+                let a = if variant2 == "busy" {
+                    let mut cfg = anemo::Config::default();
+                    cfg.shutdown_idle_timeout_ms = Some(idle_wait);
+                    Network::bind("127.0.0.1:0")
+                        .server_name("teardown")
+                        .private_key(key_from_seed(2 * i as u64 + 1))
+                        .config(cfg)
+                        .start(Busy::new(clones.clone(), 150 + (seed >> 12) % 200))
+                        .unwrap()
+                } else {
+                    net(2 * i as u64 + 1, idle_wait)
+                };
                 let b = net(2 * i as u64 + 2, 200);
                 let addr = a.local_addr();
                 if variant2 != "idle" {
@@ -59,10 +110,43 @@ pub fn run() {
                     "after-shutdown" | "rebind" => {
                         let _ = a.shutdown().await;
                     }
+                    "busy" => {
+                        // b's request is inside a's handler (in its blocking section) when a shuts down: when shutdown()
+                        // returns, every clone of a's service must be gone
+                        let b2 = b.clone();
+                        let pa = a.peer_id();
+                        for _ in 0..200 {
+                            if b.peers().contains(&pa) {
+                                break;
+                            }
+                            tokio::time::sleep(Duration::from_millis(5)).await;
+                        }
+                        let entered = clones.load(Ordering::SeqCst);
+                        tokio::spawn(async move { let r = b2.rpc(pa, Request::new(Bytes::from_static(b"x"))).await; if std::env::var("VERIF_DEBUG").is_ok() { eprintln!("rpc -> {:?}", r.map(|x| x.status())); } });
+                        // wait until the request is inside the handler (a further clone of the service exists), then a little more
+                        for _ in 0..400 {
+                            if clones.load(Ordering::SeqCst) > entered {
+                                break;
+                            }
+                            tokio::time::sleep(Duration::from_millis(1)).await;
+                        }
+                        let inside = clones.load(Ordering::SeqCst) > entered;
+                        if std::env::var("VERIF_DEBUG").is_ok() { eprintln!("entered={entered} now={}", clones.load(Ordering::SeqCst)); }
+                        tokio::time::sleep(Duration::from_millis((seed >> 40) % 40)).await;
+                        let r = a.shutdown().await;
+                        let left = clones.load(Ordering::SeqCst);
+                        return (a, b, addr, ((r.is_ok() && inside) as i64, left));
+                    }
                     _ => {}
                 }
-                (a, b, addr)
+                (a, b, addr, (0, 0))
             });
+            if variant == "busy" {
+                busy_runs += busy.0 as u64;
+                if busy.0 == 1 && busy.1 != 0 {
+                    clones_left += 1;
+                }
+            }
             if variant == "rebind" && std::net::UdpSocket::bind(addr).is_err() {
                 // not free at once.  Transient (connections still draining when the idle-wait bound was hit keep the
                 // old socket until their drivers have handled the rebind) or lasting (the endpoint still owns it)?
@@ -113,7 +197,7 @@ pub fn run() {
             }
         }
         format!(
-            "runs={runs} panics={panics} hangs={hangs} rebind_failures={rebind_failures} rebind_transient={rebind_transient} where={}",
+            "runs={runs} panics={panics} hangs={hangs} rebind_failures={rebind_failures} rebind_transient={rebind_transient} busy_shutdowns={busy_runs} clones_left={clones_left} where={}",
             if where_.is_empty() { "-".into() } else { where_.replace(' ', "_") }
         )
     });
